@@ -23,3 +23,16 @@ func reducerBroadcasted(y tensor.Tensor, x tensor.Tensor, dim int) (o tensor.Ten
 
 	return o, nil
 }
+
+func completedIndex(index []tensor.Range, shape []int) (cidx []tensor.Range) {
+	cidx = make([]tensor.Range, len(shape))
+	for i := range cidx {
+		if i < len(index) && !(index[i].From == 0 && index[i].To == 0) {
+			cidx[i] = index[i]
+		} else {
+			cidx[i] = tensor.Range{From: 0, To: shape[i]}
+		}
+	}
+
+	return cidx
+}
